@@ -75,6 +75,9 @@ def build(rnd, loc, depth, files, counter, prefix):
     for k in range(nkids):
         style = rnd.choice(['rel', 'sub', 'up', 'abs', 'sys', 'rel', 'sub', 'sysabs'])
         name = f'f{counter[0]}.bare'
+        if rnd.random() < 0.12:
+            # file and directory names with blanks, non-ASCII letters, percent signs: a location is passed on character for character
+            name = rnd.choice([f'my file {counter[0]}.bare', f'módulo{counter[0]}.bare', f'100%{counter[0]}.bare', f'a+b={counter[0]}.bare', f'x#y{counter[0]}.bare'])
         if style == 'rel':
             ref, child = name, join_dir(loc, name)
         elif style == 'sub':
